@@ -16,6 +16,9 @@ type countingRunner struct{ n *int32 }
 func (c countingRunner) Run(t *task.Task) error {
 	atomic.AddInt32(c.n, 1)
 	time.Sleep(200 * time.Microsecond)
+	if t.Name == "fails" {
+		return fmt.Errorf("task %s failed", t.Name)
+	}
 	return nil
 }
 func (c countingRunner) Cancel() {}
@@ -76,6 +79,42 @@ func DoubleInclusion(env *core.Env, rep *core.Report, iters int) int {
 			if badAt < 0 {
 				badAt, got = i, n
 			}
+		}
+	}
+	// C02: the included pipeline fails: EVERY including stage fails (whichever nested loop happened
+	// to start the failing stage), dependants of the including stages are cancelled, the run errs
+	for k := 0; k < iters/10; k++ {
+		var n int32
+		ft := task.FromCommands("false")
+		ft.Name = "fails"
+		inner, _ := scheduler.NewExecutionGraph(
+			&scheduler.Stage{Name: "u1", Task: task.FromCommands("true")},
+			&scheduler.Stage{Name: "u2", Task: ft})
+		a := &scheduler.Stage{Name: "a", Pipeline: inner}
+		b := &scheduler.Stage{Name: "b", Pipeline: inner}
+		da := &scheduler.Stage{Name: "da", Task: task.FromCommands("true"), DependsOn: []string{"a"}}
+		db := &scheduler.Stage{Name: "db", Task: task.FromCommands("true"), DependsOn: []string{"b"}}
+		outer, err := scheduler.NewExecutionGraph(a, b, da, db)
+		if err != nil {
+			core.Broken("graph: %v", err)
+		}
+		s := scheduler.NewScheduler(countingRunner{&n})
+		s.VerifSetPause(10 * time.Microsecond)
+		done := make(chan error, 1)
+		go func() { done <- s.Schedule(outer) }()
+		var serr error
+		select {
+		case serr = <-done:
+		case <-time.After(20 * time.Second):
+			rep.Add(core.Finding{Prop: "C03", Key: "C03:doubly-included-pipeline:schedule-does-not-return", What: "a failing pipeline included by two stages: Schedule did not return within 20 s", Detail: nil})
+			return k
+		}
+		st := fmt.Sprintf("a=%s b=%s da=%s db=%s", statusName[a.ReadStatus()], statusName[b.ReadStatus()], statusName[da.ReadStatus()], statusName[db.ReadStatus()])
+		if serr == nil || st != "a=E b=E da=C db=C" {
+			rep.Add(core.Finding{Prop: "C02", Key: "C02:doubly-included-pipeline:failure-seen-by-one-including-stage-only",
+				What:   fmt.Sprintf("a pipeline with a failing stage included by stages a and b (each with a dependant): run %d ended with %s, error %v; expected a=E b=E da=C db=C and an error", k, st, serr),
+				Detail: nil})
+			break
 		}
 	}
 	// C04: two stages that include the same pipeline and are eligible together both run (both are
